@@ -11,11 +11,12 @@ import (
 // globalLit describes a package-level variable initialised by a composite literal and never
 // assigned again: a table written once in the source.
 type globalLit struct {
-	Pos    string
-	Elems  []constant.Value          // slice/array literal of constants (nil entries: non-constant)
-	Keys   []constant.Value          // map literal: constant keys, in source order
-	Funcs  map[string]*types.Func    // map literal: key (string) → function named as the value
-	Consts map[string]constant.Value // map literal: key (string) → constant value
+	Pos       string
+	Elems     []constant.Value          // slice/array literal of constants (nil entries: non-constant)
+	Keys      []constant.Value          // map literal: constant keys, in source order
+	Funcs     map[string]*types.Func    // map literal: key (string) → function named as the value
+	Consts    map[string]constant.Value // map literal: key (string) → constant value
+	ElemFuncs []*types.Func             // function named by each positional element (nil when it is not a function)
 }
 
 // globalLiteral finds the literal a repository global is initialised with. It returns nil when the
@@ -29,6 +30,11 @@ func globalLiteral(c *Ctx, g *ssa.Global) *globalLit {
 		eachInstr(fn, func(i ssa.Instruction) {
 			if st, ok := i.(*ssa.Store); ok && st.Addr == ssa.Value(g) {
 				written = true
+			}
+			if st, ok := i.(*ssa.Store); ok {
+				if ia, isIA := st.Addr.(*ssa.IndexAddr); isIA && ia.X == ssa.Value(g) {
+					written = true // an element of a package-level array is assigned
+				}
 			}
 			if mu, ok := i.(*ssa.MapUpdate); ok {
 				if ld, isL := isLoad(mu.Map); isL && ld.X == ssa.Value(g) {
@@ -90,6 +96,18 @@ func globalLiteral(c *Ctx, g *ssa.Global) *globalLit {
 							continue
 						}
 						out.Elems = append(out.Elems, pk.TypesInfo.Types[e].Value)
+						var eid *ast.Ident
+						switch v := e.(type) {
+						case *ast.Ident:
+							eid = v
+						case *ast.SelectorExpr:
+							eid = v.Sel
+						}
+						var ef *types.Func
+						if eid != nil {
+							ef, _ = pk.TypesInfo.Uses[eid].(*types.Func)
+						}
+						out.ElemFuncs = append(out.ElemFuncs, ef)
 					}
 					return out
 				}
